@@ -512,7 +512,8 @@ pub fn gen_tree(rng: &mut Rng, max_entries: usize, big: bool) -> Node {
                 *b = rng.next() as u8;
             }
         }
-        let t = |rng: &mut Rng| if rng.chance(1, 3) { 0 } else { 116444736000000000 + rng.below(1u64 << 55) };
+        // a third unset, a sixth before 1970 (mostly off the whole second: 100 ns ticks), the rest after
+        let t = |rng: &mut Rng| if rng.chance(1, 3) { 0 } else if rng.chance(1, 4) { 1 + rng.below(116444736000000000 - 1) } else { 116444736000000000 + rng.below(1u64 << 55) };
         Node::Storage { name: name.to_string(), clsid, bits: if rng.chance(1, 3) { rng.next() as u32 } else { 0 }, ctime: t(rng), mtime: t(rng), kids }
     }
     if rng.chance(1, 4) {
